@@ -86,6 +86,11 @@ func RunC09P(s *simrt.Sim, a *harness.Args, r *harness.Result) {
 	delete(module.Initialized, "t2")
 	modBlock := block("modify", nil, node("&rw"))
 	deliver := node("deliver_to", "&t1")
+	// the target of a.example may sit behind a nested pipeline
+	nested := s.T.Choose(st, 2) == 1
+	if nested {
+		deliver = block("reroute", nil, node("deliver_to", "&t1"))
+	}
 	destA := block("destination", []string{"a.example"}, deliver)
 	destB := block("destination", []string{"b.example"}, node("deliver_to", "&t2"))
 	rej := block("default_destination", nil, node("reject"))
@@ -248,7 +253,7 @@ func RunC09P(s *simrt.Sim, a *harness.Args, r *harness.Result) {
 		}
 	}
 	s.Stat("pipeline_status_runs")
-	r.Shape = fmt.Sprintf("where=%s rw=%v rcpts=%v partial=%v/%v st=%v/%v body=%v/%v", where, rewrite, rcpts, tgt.Partial, tgt2.Partial, plan.Status, plan2.Status, plan.Body, plan2.Body)
+	r.Shape = fmt.Sprintf("nested=%v where=%s rw=%v rcpts=%v partial=%v/%v st=%v/%v body=%v/%v", nested, where, rewrite, rcpts, tgt.Partial, tgt2.Partial, plan.Status, plan2.Status, plan.Body, plan2.Body)
 	r.Nontrivial = len(kl.keys) > 0
 	r.Sample = map[string]interface{}{"scenario": r.Shape, "reported_keys": strings.Join(keys, ",")}
 }
